@@ -65,6 +65,7 @@ type c16conn struct {
 	deadlineSet bool
 	earlyReads  int
 	setAt       time.Time
+	pastEnd     int // reads answered with the end condition: the server wanted more than was sent
 }
 
 func (c *c16conn) Read(p []byte) (int, error) {
@@ -75,6 +76,7 @@ func (c *c16conn) Read(p []byte) (int, error) {
 		c.ci++
 	}
 	if c.ci >= len(c.chunks) {
+		c.pastEnd++
 		return 0, c.end
 	}
 	n := copy(p, c.chunks[c.ci])
@@ -546,6 +548,10 @@ func (e *c16env) judge(c c16case, o *c16obs) (c16ref, bool) {
 	if revealed && status == 200 && body != c16Secret+"\n" {
 		r.Violation("state-body", d("body", strconv.Quote(body)))
 	}
+	if o.conn != nil && o.conn.pastEnd > 0 && (f.kind == c16Post || f.kind == c16Get || f.kind == c16Reject) {
+		// not a violation: the answer is right, but a client that keeps the connection open waits for the read deadline
+		r.Count("complete_request_answered_only_after_end_of_input:" + c16KindNames[f.kind])
+	}
 	if delivered {
 		r.Count("delivered")
 	}
@@ -681,6 +687,29 @@ func TestVerif_C16_sequences(t *testing.T) {
 		r.State()
 		return true
 	})
+	if !r.Thorough() {
+		// quick: the length-5 sequences that begin with a request line the server accepts (a POST with a key needs 5 tokens)
+		kit.Sequences(len(c16Toks), 4, 4, func(rest []int) bool {
+			for _, first := range []int{0, 2} {
+				i++
+				if !r.Mine(i) {
+					continue
+				}
+				if r.Expired() {
+					return false
+				}
+				req := c16Toks[first] + c16Req(rest)
+				for _, key := range []string{"", c16Key} {
+					for en := range c16Ends {
+						c := c16mk(key, []string{req}, en, "conn")
+						e.judge(c, e.runConn(c))
+					}
+				}
+				r.State()
+			}
+			return true
+		})
+	}
 }
 
 // ---------------------------------------------------------------- layer: two writes at every split point
@@ -713,6 +742,12 @@ func TestVerif_C16_splits(t *testing.T) {
 			whole := c16mk(key, []string{req}, 0, "conn")
 			ow := e.runConn(whole)
 			for sp := 1; sp < len(req); sp++ {
+				// the client goes away / falls silent after sp bytes
+				for en := range c16Ends {
+					c := c16mk(key, []string{req[:sp]}, en, "conn")
+					e.judge(c, e.runConn(c))
+					r.Trans()
+				}
 				for _, en := range []int{0, 1} {
 					c := c16mk(key, []string{req[:sp], req[sp:]}, en, "conn")
 					o := e.runConn(c)
@@ -816,6 +851,25 @@ func TestVerif_C16_bodies(t *testing.T) {
 				k := strings.Index(req, "\r\n\r\n") + 4
 				c = c16mk(key, []string{req[:k], req[k:]}, 1, "conn")
 				e.judge(c, e.runConn(c))
+				if hk == c16Key {
+					// the body in two writes at every point, byte by byte, and followed by bytes that do not belong to it
+					for sp := k + 1; sp < len(req); sp++ {
+						c = c16mk(key, []string{req[:k], req[k:sp], req[sp:]}, 1, "conn")
+						e.judge(c, e.runConn(c))
+					}
+					bytewise := []string{req[:k]}
+					for sp := k; sp < len(req); sp++ {
+						bytewise = append(bytewise, req[sp:sp+1])
+					}
+					c = c16mk(key, bytewise, 0, "conn")
+					e.judge(c, e.runConn(c))
+					for _, tail := range []string{"\r\n", "up", "\r\n\r\nPOST / HTTP/1.1\r\n", "\x00"} {
+						c = c16mk(key, []string{req + tail}, 1, "conn")
+						e.judge(c, e.runConn(c))
+						c = c16mk(key, []string{req, tail}, 0, "conn")
+						e.judge(c, e.runConn(c))
+					}
+				}
 			}
 		}
 		r.State()
